@@ -25,7 +25,7 @@ Extraction "../ocaml/model.ml"
   Update.a_path_attributes Update.a_origin Update.a_u32 Update.a_aspath Update.a_as4path Update.a_atomic Update.a_aggregator
   Update.a_communities Update.a_conv_withdrawals Update.a_conv_announcements Update.a_mp_withdrawals Update.a_mp_announcements
   Update.a_withdrawals_vec Update.a_announcements_vec Update.a_withdrawals Update.a_announcements Update.a_is_eor
-  Update.a_mp_next_hop Update.a_conventional_next_hop Update.a_pamap Update.pamap_bytes_len Update.range_len Update.fam_of
+  Update.a_mp_next_hop Update.a_conventional_next_hop Update.a_find_next_hop Update.a_has_conventional_nlri Update.a_has_mp_nlri Update.a_pamap Update.pamap_bytes_len Update.range_len Update.fam_of
   Builder.take_message Builder.into_message Builder.into_messages Builder.pdu_iter Builder.add_announcement
   Builder.add_withdrawal Builder.set_nexthop Builder.empty_builder Builder.bsize Builder.from_update_message
   Builder.add_announcements_from_pdu Builder.add_withdrawals_from_pdu Builder.owned_all Builder.compose_all
